@@ -461,6 +461,14 @@ func (s *Session) bindCase(cs votedCase) error {
 				} else {
 					m.BlockHash[0], m.BlockHash[1] = m.BlockHash[1], m.BlockHash[0]
 				}
+			case "rechunk": // the same concatenated bytes, cut at another place: 48 + 16 bytes instead of 32 + 32
+				if len(m.BlockHash) < 2 {
+					m.StartBlockNumber++
+				} else {
+					a, b := m.BlockHash[0], m.BlockHash[1]
+					m.BlockHash[0] = append(append([]byte{}, a...), b[:16]...)
+					m.BlockHash[1] = append([]byte{}, b[16:]...)
+				}
 			case "reverse":
 				if len(m.BlockHash) < 2 {
 					m.StartBlockNumber++
@@ -567,7 +575,14 @@ func (s *Session) bindCase(cs votedCase) error {
 		f["payload"] = payload + "~" + cs.Field // a different content is a different payload
 	}
 	ctx, _ := s.C.ReadCtx().CacheContext()
-	_, verr := s.C.App.RelayerKeeper.VerifyProposal(ctx, msg)
+	// what the message server does with a voted message before anything else: stateless validation, then the quorum check
+	var verr error
+	if v, ok := msg.(interface{ Validate() error }); ok {
+		verr = v.Validate()
+	}
+	if verr == nil {
+		_, verr = s.C.App.RelayerKeeper.VerifyProposal(ctx, msg)
+	}
 	f["pf"], f["ok"], f["size"], f["field"], f["log"] = vc.Proposer, verr == nil, cs.Size, cs.Field, short(errStr(verr))
 	s.emit(s.RelW, "verify", f)
 	return nil
